@@ -62,7 +62,7 @@ func d1AltsClose(a, b []model.AlternativeWithCriteria, exact bool, ranges map[st
 
 func init() {
 	props["C16"] = func(o *Out, r *Rng, n int, thorough bool) {
-		ro := ReqOpts{}
+		ro := ReqOpts{ExtraAltKeys: 0.06}
 		if thorough {
 			ro.Prob = ProbOpts{MaxCrit: 6, MaxAlt: 8}
 		}
